@@ -21,10 +21,10 @@ from sim.seedhash import H  # noqa: E402
 SESSION_CAP_S = 420
 
 QUICK_SESSIONS = {
-    "default": 96,
+    "default": 40,
 }
 THOROUGH_SESSIONS = {
-    "default": 1600,
+    "default": 480,
 }
 
 
@@ -277,7 +277,7 @@ def write_evidence(pid, tier, seed, engine, results, wall, nviol, known_hits, kf
             "known_finding_lines": kf_lines,
             "simulated_time": "n/a (no clock in the system under test)",
             "components": {"real": ["genjax", "jax", "tensorflow_probability"], "stubbed": []},
-            "workers": int(os.environ.get("VERIF_WORKERS", "16")),
+            "workers": int(os.environ.get("VERIF_WORKERS", "8")),
         },
         "assumptions": [
             "reference interpreter sim/ref.py and acceptance table sim/script.py are correct (written from the documentation)",
@@ -313,7 +313,7 @@ def main():
     ap.add_argument("path", nargs="?")
     ap.add_argument("--tier", default=os.environ.get("VERIF_TIER", "quick"))
     ap.add_argument("--sessions", type=int)
-    ap.add_argument("--workers", type=int, default=int(os.environ.get("VERIF_WORKERS", "16")))
+    ap.add_argument("--workers", type=int, default=int(os.environ.get("VERIF_WORKERS", "8")))
     ap.add_argument("--seed", type=int, default=int(os.environ.get("VERIF_SEED", "0")))
     a = ap.parse_args()
     try:
